@@ -375,6 +375,19 @@ TRUSTED_BASE = [
 ]
 
 
+_FACTS = {}
+
+
+def gen_fact(module, name, default=True):
+    """a generated boolean fact of the tree under test, read from the translator in-process (not from coq/gen, which a
+    concurrent check against another tree may have rewritten in the meantime)"""
+    if module not in _FACTS:
+        from tools import pygen
+        _FACTS[module] = pygen.typed_items(REPO, module)
+    v = _FACTS[module].get(name)
+    return default if v is None else (v.strip() == "true")
+
+
 class Hang(BaseException):
     """raised in the main thread by time_limit(): the guarded operation did not return in time"""
 
